@@ -88,6 +88,7 @@ package asn1
 //@ loop 1 invariant shifted == offset - initOffset && 0 <= shifted && shifted <= 5 && 0 <= ret64 && ret64 >> (7 * uint64(shifted)) == 0
 //@ loop 1 invariant forall j int :: initOffset <= j && j < offset ==> bytes[j] & 128 == 128
 //@ loop 1 invariant shifted >= 1 ==> bytes[initOffset] != 128
+//@ loop 1 invariant (shifted >= 1 ==> bytes[initOffset] & 128 == 128) && (shifted >= 2 ==> bytes[initOffset + 1] & 128 == 128)
 //@ loop 1 invariant (shifted == 1 ==> ret64 == int64(bytes[initOffset] & 127)) && (shifted == 2 ==> ret64 == int64(bytes[initOffset] & 127) * 128 + int64(bytes[initOffset + 1] & 127))
 //@ ensures [consumes-between-one-and-five-octets-inside-the-input] err == nil ==> initOffset < offset && offset <= len(bytes) && offset - initOffset <= 5
 //@ ensures [continuation-bits-delimit-the-integer] err == nil ==> bytes[offset - 1] & 128 == 0 && (forall j int :: initOffset <= j && j < offset - 1 ==> bytes[j] & 128 == 128)
@@ -95,6 +96,8 @@ package asn1
 //@ ensures [one-and-two-octet-values] err == nil ==> (offset == initOffset + 1 ==> ret == int(bytes[initOffset])) && (offset == initOffset + 2 ==> ret == int(bytes[initOffset] & 127) * 128 + int(bytes[initOffset + 1]))
 //@ ensures [minimal-never-a-leading-0x80] err == nil ==> bytes[initOffset] != 128
 //@ ensures [truncated-input-is-an-error] initOffset >= len(bytes) ==> err != nil
+//@ ensures [a-single-octet-below-128-is-accepted] 0 <= initOffset && initOffset < len(bytes) && bytes[initOffset] & 128 == 0 ==> err == nil
+//@ ensures [a-minimal-two-octet-integer-is-accepted] 0 <= initOffset && initOffset < len(bytes) && initOffset + 1 < len(bytes) && bytes[initOffset] & 128 == 128 && bytes[initOffset] != 128 && bytes[initOffset + 1] & 128 == 0 ==> err == nil
 
 // OBJECT IDENTIFIER: first arc pair unpacked from the first base-128 integer (X.690 8.19.4), then
 // one arc per base-128 integer until the content is exhausted; empty content only in lax mode.
@@ -126,6 +129,7 @@ package asn1
 //@ ensures [low-tag-numbers-inline-high-ones-minimal] err == nil ==> (bytes[initOffset] & 31 != 31 ==> ret.tag == int(bytes[initOffset] & 31)) && (bytes[initOffset] & 31 == 31 ==> tagnum.called && ret.tag == tagnum.res0 && ret.tag >= 31)
 //@ ensures [length-definite-and-below-2-to-the-31] err == nil ==> 0 <= ret.length && ret.length < 2147483648
 //@ ensures [empty-input-is-an-error] initOffset >= len(bytes) ==> err != nil
+//@ ensures [a-low-tag-with-a-short-form-length-is-accepted] 0 <= initOffset && initOffset < len(bytes) && initOffset + 1 < len(bytes) && bytes[initOffset] & 31 != 31 && bytes[initOffset + 1] & 128 == 0 ==> err == nil
 //@ ensures [short-form-length-is-the-octet-itself] err == nil && bytes[initOffset] & 31 != 31 && bytes[initOffset + 1] & 128 == 0 ==> ret.length == int(bytes[initOffset + 1]) && offset == initOffset + 2
 //@ ensures [long-form-only-for-lengths-of-128-and-more-without-leading-zero] err == nil && bytes[initOffset] & 31 != 31 && bytes[initOffset + 1] & 128 == 128 ==> ret.length >= 128 && bytes[initOffset + 1] != 128 && bytes[initOffset + 2] != 0
 //@ at tagnum assert [tag-number-follows-the-identifier-octet] tagnum.bytes == bytes && tagnum.initOffset == initOffset + 1
@@ -148,6 +152,7 @@ package asn1
 //@ site couldBeISO8859_1#1 as iso
 //@ site couldBeT61#1 as t61
 //@ ensures [strict-mode-rejects-any-character-outside-the-alphabet] !lax && ip.called && !ip.res ==> err != nil
+//@ ensures [rejected-only-after-a-character-outside-the-alphabet-was-seen] err != nil ==> ip.called && !ip.res
 //@ ensures [lax-mode-adds-only-iso-8859-1-and-t61-contents] lax && ip.called && !ip.res && err == nil ==> iso.called && (iso.res || (t61.called && t61.res))
 //@ at ip assert [every-octet-is-tested-with-the-tolerant-alphabet] ip.b == bytes[rangeindex + 1] && ip.asterisk && ip.ampersand
 //@ at iso assert [guesses-over-the-whole-content] iso.bytes == bytes
